@@ -157,7 +157,20 @@ def run(tier, seed):
         if r is None:
             raise SystemExit(1)
         return r
-    return run_coexec("C02", tier, seed, module=MODULE, theorems=THEOREMS, gen_cases=gen_cases,
+    def composite(rng, tier_, seed_, cases):
+        """the same chains over COMPOSITE return types (Option/Result/Vec/Poll/tuples with owned leaves next to borrowed parts): the k-th
+        request through returns / each_call / n_times(1|2|3) / at_least_times(1) yields the configured value or the single-use refusal"""
+        from . import C12
+        n, ntypes, bad = C12.composite_part(rng, tier_, crate="outputs02", limit=45 if tier_ == "quick" else 200)
+        cov = {"composite_part": {"evaluations": n, "types": ntypes, "rule": composite.__doc__}}
+        if not bad:
+            return n, None, cov
+        b = dict(bad[0])
+        b.update({"property": "C02", "seed": seed_, "part": "composite", "disagreeing_cases_in_run": len(bad),
+                  "theorem_or_correspondence": "correspondence C02 (composite part): k-th request on a composite return type vs Macro/Output.v (C17_single_use / C17_multi_use)",
+                  "replay_cmd": "./check C02 --replay <this file>"})
+        return n, b, cov
+    return run_coexec("C02", tier, seed, module=MODULE, theorems=THEOREMS, gen_cases=gen_cases, parts=[composite],
                       nontrivial=nontrivial, rule=RULE + "; plus 2-3 threads matching one chain concurrently under every interleaving of "
                       "the runtime's atomic operations (controlled scheduler)", engines=engines(tier), stats=stats,
                       extra_obligations=extra_obligations)
@@ -166,6 +179,9 @@ def run(tier, seed):
 def replay(path):
     import json
     payload = json.load(open(path))
+    if payload.get("part") == "composite":
+        from . import C12
+        return C12.replay_composite("C02", payload, path, "outputs02")
     if payload.get("part") == "concurrent":
         from .. import common as C
         from .. import layer_b as B
